@@ -28,6 +28,7 @@ import (
 	"golang.org/x/tools/go/ssa"
 	"mvdan.cc/garble/internal/ctrlflow"
 	"mvdan.cc/garble/internal/literals"
+	"mvdan.cc/garble/internal/verifhook"
 )
 
 // cmd/bundle will include a go:generate directive in its output by default.
@@ -695,6 +696,7 @@ func (tf *transformer) writeSourceFile(basename, obfuscated string, content []by
 		return "", err
 	}
 	dstPath := filepath.Join(pkgDir, obfuscated)
+	verifhook.Event("src.write", "base", basename, "digest", verifhook.BytesDigest(content))
 	if err := writeFileExclusive(dstPath, content); err != nil {
 		return "", err
 	}
@@ -737,6 +739,9 @@ func (tf *transformer) transformCompile(args []string) ([]string, error) {
 	}
 	// log.Printf("seeding math/rand with %x\n", randSeed)
 	tf.obfRand = mathrand.New(mathrand.NewSource(int64(binary.BigEndian.Uint64(randSeed))))
+	if verifhook.Enabled {
+		tf.obfRand = mathrand.New(verifhook.WrapSource(mathrand.NewSource(int64(binary.BigEndian.Uint64(randSeed)))))
+	}
 
 	// Even if loadPkgCache below finds a direct cache hit,
 	// other parts of garble still need type information to obfuscate.
@@ -863,6 +868,7 @@ func (tf *transformer) transformCompile(args []string) ([]string, error) {
 		return nil, err
 	}
 	flags = flagSetValue(flags, "-importcfg", newImportCfg)
+	verifhook.RandDone()
 
 	return append(flags, newPaths...), nil
 }
